@@ -271,6 +271,9 @@ func (r *Run) finish() {
 		}
 	}
 	// pinned obligations that no longer exist
+	for _, c := range r.Covers {
+		seen[c.Name] = true
+	}
 	missing := []string{}
 	for name := range expect {
 		if !seen[name] {
@@ -300,6 +303,16 @@ func (r *Run) finish() {
 			fmt.Printf("  cover:%-6s %-14s %6dms  %s\n", c.Status, c.Solver, c.Ms, c.Name)
 		}
 		if c.Status == "unsat" {
+			if _, isPinned := expect[c.Name]; isPinned {
+				// a situation that was reachable on the unchanged tree (pinned as SAT)
+				// can no longer occur: the code no longer gets there (it fails or panics
+				// on every such path), and every postcondition about it holds vacuously
+				violations++
+				c.Text = "REACHABILITY LOST (satisfiable on the unchanged tree, unsatisfiable now): " + c.Text
+				path := r.writeReplay(c, "function")
+				vioLines = append(vioLines, fmt.Sprintf("VIOLATION property=%s replay=%s obligation=%s status=unreachable at=function no-failing-input-found", r.Prop, path, c.Name))
+				continue
+			}
 			vac = append(vac, c.Name)
 		}
 	}
@@ -414,6 +427,11 @@ func (r *Run) writeExpect() {
 	for _, o := range r.Obls {
 		if o.Status == "unsat" {
 			lines = append(lines, fmt.Sprintf("%s\t%s\t%d", o.Name, o.Solver, o.Ms))
+		}
+	}
+	for _, c := range r.Covers {
+		if c.Status == "sat" {
+			lines = append(lines, fmt.Sprintf("%s\tcover-sat\t%d", c.Name, c.Ms))
 		}
 	}
 	sort.Strings(lines)
